@@ -30,7 +30,7 @@ ASSUMPTIONS = ['one-shot bytes.decode of the standard library is the definition 
                'garbage bytes are injected only for utf-8, utf-8-sig, utf-16-le, latin-1, cp1252, shift_jis, euc_jp, gb18030 '
                '(the BOM-sniffing utf-16/utf-32 incremental decoders legitimately differ from one-shot decoding on garbage)',
                'the stream never ends inside a character']
-REQUIRED = ['splittings', 'cuts_inside_character', 'transport_fd', 'transport_socket', 'transport_async_direct',
+REQUIRED = ['splittings', 'cuts_inside_character', 'transport_fd', 'transport_fd_pair', 'transport_socket', 'transport_async_direct',
             'transport_async_loop', 'transport_mixed_loop', 'transport_pty', 'transport_popen', 'log_compared', 'bytes_mode_cases', 'interact_sessions_with_cut_characters']
 
 CODECS = ['utf-8', 'utf-16', 'utf-16-le', 'utf-32', 'latin-1', 'cp1252', 'shift_jis', 'euc_jp', 'gb18030', 'utf-8-sig',
@@ -323,6 +323,78 @@ def run_mixed_loop(pieces, enc, errors, use_expect):
             pass
 
 
+class OtherObjectSpoiled(Exception):
+    pass
+
+
+def run_fd_pair(pieces, enc, errors, use_expect):
+    """two live objects with the same encoding and error policy, read alternately; a third one is created while
+    both may be in the middle of a character: no object's decoding state is any other object's business"""
+    ra, wa = os.pipe()
+    rb, wb = os.pipe()
+    rc = wc = None
+    other_text = 'B\xe9\u20ac\u65e5!'
+    if enc is None:
+        other = b'B\xe9\xff\x00!'
+    else:
+        try:
+            other = other_text.encode(enc)
+        except (UnicodeEncodeError, LookupError):
+            other_text = 'Bplain!'
+            other = other_text.encode(enc)
+    try:
+        a = fdpexpect.fdspawn(ra, encoding=enc, codec_errors=errors, timeout=5)
+        b = fdpexpect.fdspawn(rb, encoding=enc, codec_errors=errors, timeout=5)
+        log = Log(str if enc else bytes)
+        a.logfile_read = log
+        never = ['\x00\x00NEVER'] if enc else [b'\x00\x00NEVER']
+        k = 0
+        cut = max(1, len(other) // 2 + (1 if len(other) > 3 else 0))
+        ob = [other[:cut], other[cut:]]
+        for pc in pieces:
+            if not pc:
+                continue
+            os.write(wa, pc)
+            try:
+                a.expect_exact(never, timeout=0)
+            except TIMEOUT:
+                pass
+            if k == 0:
+                os.write(wb, ob[0])
+                try:
+                    b.expect_exact(never, timeout=0)
+                except TIMEOUT:
+                    pass
+            if k == 1:
+                rc, wc = os.pipe()
+                fdpexpect.fdspawn(rc, encoding=enc, codec_errors=errors, timeout=5)
+            k += 1
+        os.write(wb, ob[1])
+        os.close(wb)
+        wb = None
+        try:
+            b.expect_exact(never, timeout=5)
+        except EOF:
+            pass
+        os.close(wa)
+        wa = None
+        try:
+            a.expect_exact(never, timeout=5)
+        except EOF:
+            pass
+        want_b = other.decode(enc, errors) if enc else other
+        if b.before != want_b:
+            raise OtherObjectSpoiled('the second object read %r, its peer wrote %r' % (b.before, want_b))
+        return a.before, log.value()
+    finally:
+        for fd in (ra, wa, rb, wb, rc, wc):
+            if fd is not None:
+                try:
+                    os.close(fd)
+                except OSError:
+                    pass
+
+
 def run_link(kind):
     def run(pieces, enc, errors, use_expect):
         L = Link(kind, encoding=enc, codec_errors=errors, timeout=10)
@@ -350,7 +422,7 @@ def run_link(kind):
     return run
 
 
-RUNNERS = {'fd': run_fd, 'socket': run_socket, 'async_direct': run_async_direct, 'async_loop': run_async_loop, 'mixed_loop': run_mixed_loop,
+RUNNERS = {'fd': run_fd, 'fd_pair': run_fd_pair, 'socket': run_socket, 'async_direct': run_async_direct, 'async_loop': run_async_loop, 'mixed_loop': run_mixed_loop,
            'pty': run_link('pty'), 'popen': run_link('popen')}
 
 
@@ -420,7 +492,7 @@ def plan(tier, seed):
     return specs
 
 
-FAST = ['fd', 'socket', 'async_direct']
+FAST = ['fd', 'socket', 'async_direct', 'fd_pair']
 PTY_CODECS = (None, 'utf-8', 'latin-1', 'cp1252', 'shift_jis', 'euc_jp', 'gb18030', 'big5')
 
 
@@ -454,7 +526,7 @@ def run_shard(spec, acc):
             if len(data) > 12:
                 continue
             made += 1
-            tr = FAST[made % 3]
+            tr = FAST[made % 4]
             n = len(data)
             for k in range(0, spec['maxcuts'] + 1):
                 for cuts in itertools.combinations(range(1, n), k):
